@@ -661,7 +661,7 @@ func driver(args []string) int {
 		cov["exhaustive"] = true
 	}
 	ev := map[string]interface{}{
-		"property_id": o.prop, "tier": o.tier, "seed": o.seed, "level": "exploration",
+		"property_id": o.prop, "tier": o.tier, "seed": o.seed, "level": orStr(chk.Level, "exploration"),
 		"coverage": cov, "assumptions": chk.Assumptions, "wall_s": time.Since(start).Seconds(),
 		"violations": violations, "verdict": []string{"held-on-observed", "violated", "inconclusive"}[exit],
 	}
